@@ -36,7 +36,8 @@ def _seedval(seed):
 # ------------------------------------------------------------------ E-INPUT
 def queries(a, b):
     span = b - a
-    return [a, b, a + span / 2, a + span / 3, a + span * 0.9, a - span, b + span, a - 2 * span, b + 2 * span, a + span * 1e-3]
+    return [a, b, a + span / 2, a + span / 3, a + span * 0.9, a - span, b + span, a - 2 * span, b + 2 * span, a + span * 1e-3,
+            b - span * 8e-10, b + span * 3e-10, a + span * 5e-10, b - span * 1e-12]  # just off the end points
 
 
 def judge_grid(a, b, r0, r1, acc=None):
@@ -45,6 +46,13 @@ def judge_grid(a, b, r0, r1, acc=None):
         s = LinearScale().domain([a, b]).range([r0, r1])
         c = LinearScale().domain([a, b]).range([r0, r1]).clamp(True)
         ya, yb = s(a), s(b)
+        # the same scales built through the constructor arguments must behave identically
+        s2 = LinearScale([a, b], [r0, r1])
+        c2 = LinearScale([a, b], [r0, r1], None, True)
+        for x in queries(a, b)[:6]:
+            if s2(x) != s(x) or c2(x) != c(x) or s2.invert(s(x)) != s.invert(s(x)):
+                return ("C12:constructor-differs", "LinearScale(domain, range%s) differs from the scale configured through setters "
+                        "at x=%r: %r vs %r (clamped %r vs %r)" % ("", x, s2(x), s(x), c2(x), c(x)))
     except Exception as e:
         return "EXC:" + type(e).__name__, "LinearScale domain [%r,%r] range [%r,%r] raised %r" % (a, b, r0, r1, e)
     where = "domain [%r, %r] range [%r, %r]" % (a, b, r0, r1)
@@ -225,8 +233,29 @@ def near_ties(vals):
     return out
 
 
+def judge_default_constructor():
+    """Constructor keywords on the default unit scale (no domain/range given)."""
+    from labella.scale import LinearScale
+    for kw, setter in (({"clamp": True}, lambda s: s.clamp(True)), ({"clamp": False}, lambda s: s.clamp(False)),
+                       ({"domain": [2, 4]}, lambda s: s.domain([2, 4])), ({"_range": [5, -5]}, lambda s: s.range([5, -5])),
+                       ({"domain": [2, 4], "clamp": True}, lambda s: s.domain([2, 4]).clamp(True))):
+        try:
+            a = LinearScale(**kw)
+            b = setter(LinearScale())
+            for x in (-3.0, 0.0, 0.25, 1.0, 1.75, 3.0, 9.0):
+                if a(x) != b(x) or a.invert(x) != b.invert(x) or a.clamp() != b.clamp():
+                    return ("C12:constructor-differs", "LinearScale(%s) maps %r to %r / inverts to %r; the same configuration through "
+                            "setters gives %r / %r" % (", ".join("%s=%r" % kv for kv in kw.items()), x, a(x), a.invert(x), b(x), b.invert(x)))
+            ca = a.copy()
+            if any(ca(x) != a(x) for x in (-3.0, 0.5, 3.0)):
+                return "C12:hist-copy-differs", "copy of LinearScale(%r) differs from its original" % (kw,)
+        except Exception as e:
+            return "EXC:" + type(e).__name__, "LinearScale(%r) raised %r" % (kw, e)
+    return None
+
+
 def plan(tier, seed):
-    shards = []
+    shards = [{"kind": "ctor"}]
     vals = VALS + [_seedval(seed)]
     pairs = [(a, b) for a in vals for b in vals if a != b]
     n = 32
@@ -240,6 +269,15 @@ def plan(tier, seed):
 
 def run_shard(shard):
     acc = Acc()
+    if shard["kind"] == "ctor":
+        bad = judge_default_constructor()
+        acc.evals += 1
+        acc.states += 1
+        acc.trans += 1
+        if bad:
+            acc.violation({"ctor": True}, bad[0], bad[1], order=(0, 0))
+        acc.sample({"ctor": True})
+        return acc
     if shard["kind"] == "grid":
         vals = VALS + [_seedval(shard["seed"])]
         pairs = [(a, b) for a in vals for b in vals if a != b]
@@ -266,6 +304,8 @@ def run_shard(shard):
 
 
 def replay(case):
+    if case.get("ctor"):
+        return judge_default_constructor()
     if "hist" in case:
         hist = [(h[0], h[1], h[2]) for h in case["hist"]]
         for k in range(1, len(hist) + 1):
